@@ -8,6 +8,20 @@ use crate::utils::expressions_as_statement;
 
 use super::verify_no_rule_properties;
 
+/// With a name declared twice (`local a, unused, a = ...`), which declaration wins depends
+/// on the order of the variables: the statement is left as is.
+fn has_duplicate_names(assign: &crate::nodes::VariableAssignment) -> bool {
+    let names: Vec<_> = assign
+        .iter_variables()
+        .map(|variable| variable.get_name())
+        .collect();
+
+    names
+        .iter()
+        .enumerate()
+        .any(|(index, name)| names[..index].contains(name))
+}
+
 #[derive(Default)]
 struct RemoveUnusedVariableProcessor {
     evaluator: Evaluator,
@@ -120,7 +134,7 @@ impl NodeProcessor for RemoveUnusedVariableProcessor {
                                 *statement = expressions_as_statement(values);
                                 true
                             }
-                        } else if usages.iter().any(|used| !used) {
+                        } else if usages.iter().any(|used| !used) && !has_duplicate_names(assign) {
                             let mut assignments: Vec<_> = assign
                                 .iter_variables()
                                 .zip(usages.iter())
